@@ -16,10 +16,10 @@ func init() {
 		Level: "Decides that on the read path a histogram's counter-reset hint is only ever produced by counterResetHint(header, numRead) in the chunk iterators, that this function answers 'not a reset' only for the second and later samples read from a non-gauge chunk, " +
 			"that the vertical merge iterator records a sample as consecutive only if its source iterator did not change since the previous sample (every replacement of the current iterator is followed by the 'changed' mark before the flag is stored; Seek clears the flag before it repositions), " +
 			"that both histogram accessors of the merge iterator downgrade a non-gauge hint to 'unknown' whenever the flag is clear, and that the tombstone/trim wrapper DeletedIterator does the same for a sample reached by skipping deleted ones (finding F11).",
-		Note:     "Trusted: go/packages, go/types, go/cfg; rule tables in checker/c12.go.",
-		Covers:   "chunkenc.counterResetHint and its callers; writers of Histogram.CounterResetHint / FloatHistogram.CounterResetHint in storage and tsdb (non-test); chainSampleIterator.Next/Seek/AtHistogram/AtFloatHistogram; DeletedIterator.Next/Seek/AtHistogram/AtFloatHistogram.",
-		NotCover: "that the shared reset-detection logic is itself right (value-level; only its agreement across the integer/float and plain/ST copies is decided), PromQL's use of the hint.",
-		Run:      runC12,
+		Note:           "Trusted: go/packages, go/types, go/cfg; rule tables in checker/c12.go.",
+		Covers:         "chunkenc.counterResetHint and its callers; writers of Histogram.CounterResetHint / FloatHistogram.CounterResetHint in storage and tsdb (non-test); chainSampleIterator.Next/Seek/AtHistogram/AtFloatHistogram; DeletedIterator.Next/Seek/AtHistogram/AtFloatHistogram.",
+		NotCover:       "that the shared reset-detection logic is itself right (value-level; only its agreement across the integer/float and plain/ST copies is decided), PromQL's use of the hint.",
+		Run:            runC12,
 		MinObligations: 18,
 	})
 }
@@ -83,7 +83,9 @@ func runC12(c *eng.Ctx) {
 	{
 		f := c.Fn(hint)
 		ret := func(val string) eng.Matcher {
-			return eng.Return(val, func(g *eng.Graph, rs *ast.ReturnStmt) bool { return len(rs.Results) == 1 && eng.ExprString(rs.Results[0]) == val })
+			return eng.Return(val, func(g *eng.Graph, rs *ast.ReturnStmt) bool {
+				return len(rs.Results) == 1 && eng.ExprString(rs.Results[0]) == val
+			})
 		}
 		notReset := ret("histogram.NotCounterReset")
 		f.Has("R3", notReset, 1)
